@@ -186,6 +186,11 @@ func (s *DiscoveryStrategy) GetRoutableEndpoints(
 		"updated_healthy", len(updatedHealthy),
 		"original_healthy", len(healthyEndpoints))
 
+	// The caller's list is the scope of this request (a provider route only offers the
+	// provider's own endpoints): the refresh may shrink it, it must not widen it to
+	// endpoints the request was never allowed to use
+	updatedHealthy = withinScope(updatedHealthy, healthyEndpoints)
+
 	if len(updatedHealthy) == 0 {
 		return nil, ports.NewRoutingDecision(
 				s.Name(),
@@ -226,4 +231,20 @@ func (s *DiscoveryStrategy) GetRoutableEndpoints(
 			constants.RoutingReasonAllHealthyAfterDiscovery,
 		), nil
 	}
+}
+
+// withinScope keeps the endpoints of candidates that are also in scope (matched by URL)
+func withinScope(candidates, scope []*domain.Endpoint) []*domain.Endpoint {
+	inScope := make(map[string]struct{}, len(scope))
+	for _, endpoint := range scope {
+		inScope[endpoint.URLString] = struct{}{}
+	}
+
+	kept := make([]*domain.Endpoint, 0, len(candidates))
+	for _, endpoint := range candidates {
+		if _, ok := inScope[endpoint.URLString]; ok {
+			kept = append(kept, endpoint)
+		}
+	}
+	return kept
 }
